@@ -92,3 +92,72 @@ theorem settled_stable (c : Circuit) (inp : Inputs) (rank : Nat → Nat) (hr : c
 
 end Circuit
 end Facto
+
+namespace Facto
+namespace Circuit
+
+/-! ## histories: the same from an arbitrary earlier state -/
+
+/-- the run under constant inputs `inp`, continued from an arbitrary state `s0` (what earlier inputs left behind) -/
+def runFrom (c : Circuit) (inp : Inputs) (s0 : Nat → SigMap) : Nat → Nat → SigMap
+  | 0 => s0
+  | t + 1 => fun i => c.evalEnt inp (c.runFrom inp s0 t) i
+
+theorem runFrom_succ (c : Circuit) (inp : Inputs) (s0 : Nat → SigMap) (t i : Nat) :
+    c.runFrom inp s0 (t + 1) i = c.evalEnt inp (c.runFrom inp s0 t) i := rfl
+
+/-- **M1 for histories.** From tick `rank i + 1` after the inputs took their present values, the output of `i` no
+longer changes — whatever state the earlier inputs left behind. -/
+theorem settle_from (c : Circuit) (inp : Inputs) (s0 : Nat → SigMap) (rank : Nat → Nat) (hr : c.Ranked rank) :
+    ∀ (t i : Nat), rank i < t + 1 → c.runFrom inp s0 (t + 1) i = c.runFrom inp s0 (rank i + 1) i := by
+  intro t
+  induction t using Nat.strongRecOn with
+  | _ t ih =>
+    intro i hi
+    by_cases h : rank i = t
+    · subst h; rfl
+    · have hlt : rank i < t := by omega
+      obtain ⟨t', rfl⟩ : ∃ t', t = t' + 1 := ⟨t - 1, by omega⟩
+      rw [runFrom_succ, ← ih t' (by omega) i (by omega), runFrom_succ]
+      apply evalEnt_local
+      intro p hri hp
+      have hp' : rank p < rank i := hr i p hri hp
+      obtain ⟨t'', rfl⟩ : ∃ t'', t' = t'' + 1 := ⟨t' - 1, by omega⟩
+      rw [ih (t'' + 1) (by omega) p (by omega), ih t'' (by omega) p (by omega)]
+
+/-- a ranked circuit has at most one fixpoint per input valuation -/
+theorem fixpoint_unique (c : Circuit) (inp : Inputs) (rank : Nat → Nat) (hr : c.Ranked rank)
+    (E1 E2 : Nat → SigMap) (h1 : ∀ i, c.evalEnt inp E1 i = E1 i) (h2 : ∀ i, c.evalEnt inp E2 i = E2 i) :
+    ∀ i, E1 i = E2 i := by
+  have key : ∀ n i, rank i = n → E1 i = E2 i := by
+    intro n
+    induction n using Nat.strongRecOn with
+    | _ n ih =>
+      intro i hi
+      rw [← h1 i, ← h2 i]
+      apply evalEnt_local
+      intro p hri hp
+      have hp' : rank p < rank i := hr i p hri hp
+      exact ih (rank p) (by omega) p rfl
+  intro i
+  exact key (rank i) i rfl
+
+/-- after `T` ticks (any `T` above every rank) of the present inputs, the state is the settled state of a run from
+power-on with those inputs: the outputs of a stateless circuit depend on the present inputs only, not on the history -/
+theorem history_independent (c : Circuit) (inp : Inputs) (s0 : Nat → SigMap) (rank : Nat → Nat) (hr : c.Ranked rank)
+    (T : Nat) (hT : ∀ i, rank i < T) (t : Nat) (ht : T ≤ t) (i : Nat) :
+    c.runFrom inp s0 t i = c.runF inp T i := by
+  obtain ⟨T', rfl⟩ : ∃ T', T = T' + 1 := ⟨T - 1, by have := hT 0; omega⟩
+  obtain ⟨t', rfl⟩ : ∃ t', t = t' + 1 := ⟨t - 1, by omega⟩
+  -- the state at `T` of the continued run is a fixpoint
+  have hfix : ∀ j, c.evalEnt inp (c.runFrom inp s0 (T' + 1)) j = c.runFrom inp s0 (T' + 1) j := by
+    intro j
+    rw [← runFrom_succ, settle_from c inp s0 rank hr (T' + 1) j (by have := hT j; omega),
+      settle_from c inp s0 rank hr T' j (hT j)]
+  have hstable : c.runFrom inp s0 (t' + 1) i = c.runFrom inp s0 (T' + 1) i := by
+    rw [settle_from c inp s0 rank hr t' i (by have := hT i; omega), settle_from c inp s0 rank hr T' i (hT i)]
+  rw [hstable]
+  exact fixpoint_unique c inp rank hr _ _ hfix (settled_fixpoint c inp rank hr (T' + 1) hT) i
+
+end Circuit
+end Facto
